@@ -27,6 +27,20 @@ impl std::fmt::Debug for Interval {
 }
 
 impl Interval {
+    /// Builds an interval from bounds computed with infinite operands
+    ///
+    /// Opposite infinities cancel to `NaN` in a single bound (e.g.
+    /// `[inf, inf] - [1e38, inf]` gives `[NaN, inf]`); such a result is
+    /// undecided, so it becomes the `NaN` interval instead of a panic.
+    #[inline]
+    fn new_or_nan(lower: f32, upper: f32) -> Self {
+        if lower.is_nan() || upper.is_nan() {
+            f32::NAN.into()
+        } else {
+            Interval::new(lower, upper)
+        }
+    }
+
     /// Builds a new interval
     ///
     /// There are two kinds of valid interval:
@@ -675,7 +689,7 @@ impl std::ops::Add<Interval> for Interval {
     type Output = Self;
     #[inline]
     fn add(self, rhs: Self) -> Self {
-        Interval::new(self.lower + rhs.lower, self.upper + rhs.upper)
+        Interval::new_or_nan(self.lower + rhs.lower, self.upper + rhs.upper)
     }
 }
 
@@ -712,9 +726,9 @@ impl std::ops::Mul<f32> for Interval {
         if self.has_nan() || rhs.is_nan() {
             f32::NAN.into()
         } else if rhs < 0.0 {
-            Interval::new(self.upper * rhs, self.lower * rhs)
+            Interval::new_or_nan(self.upper * rhs, self.lower * rhs)
         } else {
-            Interval::new(self.lower * rhs, self.upper * rhs)
+            Interval::new_or_nan(self.lower * rhs, self.upper * rhs)
         }
     }
 }
@@ -754,7 +768,7 @@ impl std::ops::Sub<Interval> for Interval {
 
     #[inline]
     fn sub(self, rhs: Self) -> Self {
-        Interval::new(self.lower - rhs.upper, self.upper - rhs.lower)
+        Interval::new_or_nan(self.lower - rhs.upper, self.upper - rhs.lower)
     }
 }
 
